@@ -302,3 +302,40 @@ Theorem C09_script_string : forall l s fill body tl ahead later,
   = match l with Py => if utf8_valid body then OStr body else OInvalid | Lua => OStr body end.
 Proof. exact script_str. Qed.
 Print Assumptions C09_script_string.
+
+(* ---------------------------------------------------------------- the text inside replay's 1 KiB buffer *)
+(* get_argspec_string writes into char args[1024] piece by piece (print_args / print_char, after the fix: commits
+   618ee80 / 0cdad2d: a piece that does not fit is dropped whole, nothing more is taken; the loop stops when fewer than
+   2 characters are left).  Model: show_pieces / put / show_loop_b / show_args_b / show_ret_b.
+   Whatever the arguments, the text stays inside the buffer ... *)
+Theorem C09_text_within_buffer : forall syms specs data,
+  lenN (show_args_b syms specs data) <= TEXT_SIZE - 1 /\ lenN (show_ret_b syms specs data) <= TEXT_SIZE - 1.
+Proof. exact text_within_buffer. Qed.
+Print Assumptions C09_text_within_buffer.
+
+(* ... and when the whole text fits the 1023 characters replay prints exactly the unbounded text of the round-trip
+   theorems *)
+Theorem C09_text_fits : forall syms specs data,
+  lenN (show_args syms specs data) <= TEXT_SIZE - 1 -> show_args_b syms specs data = show_args syms specs data.
+Proof. exact show_args_b_fits. Qed.
+Print Assumptions C09_text_fits.
+
+(* so C09_roundtrip holds for what replay really prints *)
+Theorem C09_roundtrip_in_buffer : forall syms fill inp l,
+  l <> [] ->
+  Forall (fun p => is_arg (fst p) /\ covered inp (fst p) (snd p)) l ->
+  fits l = true ->
+  lenN (show_args syms (map fst l) (payload (run fill inp false (map fst l)))) <= TEXT_SIZE - 1 ->
+  ok_args l (show_args_b syms (map fst l) (payload (run fill inp false (map fst l)))) = true.
+Proof. exact call_roundtrip_bounded. Qed.
+Print Assumptions C09_roundtrip_in_buffer.
+
+(* the hypothesis is needed: 10 strings of 97 newlines (1980 characters with the escapes) are cut to 1022 at a whole escape; the
+   checker accepts the cut text because every value it shows is right *)
+Theorem C09_text_cut_example :
+  let p := payload (run 0 long_inp false long_specs) in
+  lenN (show_args [] long_specs p) = 1980 /\
+  lenN (show_args_b [] long_specs p) = 1022 /\
+  ok_args (map (fun s => (s, AStr (repeat 10 97))) long_specs) (show_args_b [] long_specs p) = true.
+Proof. exact long_text_cut. Qed.
+Print Assumptions C09_text_cut_example.
